@@ -279,7 +279,7 @@ class Ctx:
             self.broken("proof(%s)" % target, where)
             return False
         # forbidden constructs anywhere in the development
-        bad = self.grep_forbidden()
+        bad = self.grep_forbidden(prop)
         if bad:
             self.broken("forbidden-construct", "; ".join(bad[:5]))
             return False
@@ -307,12 +307,21 @@ class Ctx:
         if rc != 0:
             self.broken("coqchk(%s)" % prop, out[-800:])
 
-    def grep_forbidden(self):
+    def cone(self, prop):
+        """The .v files Props/<prop>.v depends on (coqdep), Extract/ files of the same models included."""
+        rc, out = sh("coqdep -Q . V -sort Props/%s.v 2>/dev/null" % prop, cwd=COQ)
+        files = [f for f in out.split() if f.endswith(".v")]
+        return [os.path.join(COQ, f) for f in files] or None
+
+    def grep_forbidden(self, prop=None):
         bad = []
-        for root, _, files in os.walk(COQ):
-            for f in files:
-                if f.endswith(".v"):
-                    p = os.path.join(root, f)
+        cone = self.cone(prop) if prop else None
+        if cone is None:
+            cone = [os.path.join(r, f) for r, _, fs in os.walk(COQ) for f in fs if f.endswith(".v")]
+        self.notes["cone_files"] = [os.path.relpath(p, COQ) for p in cone]
+        for p in cone:
+            for _ in (0,):
+                if True:
                     text = strip_coq_comments(open(p).read())
                     for i, line in enumerate(text.splitlines(), 1):
                         if FORBIDDEN.search(line):
